@@ -7,7 +7,7 @@ overflow base+size."""
 from .. import cast, sym, lin
 from ..sym import C, fmt, linearize as L
 from ..lin import Lin
-from .regs import Regs, T, strip_cast, size_facts
+from .regs import Regs, T, strip_cast, size_facts, scan_rule, for_headers
 
 FLAGS = ('f', T, 'flags')
 
@@ -474,6 +474,9 @@ def run(ck):
     ck.not_decided += ['the exact accept/reject set over all layouts as a whole', 'address overflow of base + size']
     R = Regs(ck)
     eng = sym.Engine(R.u, sizeof=R.so, inline={'need_to_load_default'})
+    for_headers(R, 'C04.c', 'register_init', [(1, 'areas'), (1, 'entries'), (0, 'areas'), (0, 'entries'), (0, 'areas')])
+    scan_rule(R, 'C04.d', 'reg_entry_is_in_memory', 'areas')
+    scan_rule(R, 'C04.e', 'ra_first_entry_of_next', 'entries', ('v', 'start'))
     ps = R.paths('register_init', 'C04.a', eng)
     if ps is not None:
         rule_a(ck, R, eng, ps)
